@@ -197,6 +197,9 @@ class Cfg:
         self.allow_ops = False
         self.spin_modes = [False, False, False, True]
         self.max_slots = 12
+        # 1/zero_deltas of the deltas link indices of different spaces or
+        # opposite spins (such a delta - and the term - is identically zero)
+        self.zero_deltas = 0
         self.__dict__.update(kw)
 
     def catalogue(self):
@@ -340,6 +343,13 @@ def st_term_for_targets(draw, cfg, targets, spin_mode, general, numbered,
                 if spin_mode == "mixed" and draw(st.integers(0, 2)) == 0:
                     pc = (pc[0], draw(st.sampled_from(
                         ["", pc[1]] if pc[1] else ["", "a", "b"])))
+                if cfg.zero_deltas and \
+                        draw(st.integers(1, cfg.zero_deltas)) == 1:
+                    if pc[1] and draw(st.booleans()):
+                        pc = (draw(st.sampled_from(spaces)),
+                              "b" if pc[1] == "a" else "a")
+                    elif pc[0] != "general":
+                        pc = ("virt" if pc[0] == "occ" else "occ", pc[1])
                 cls[s] = pc
                 continue
         if o["k"] == "T" and draw(st.integers(0, 6)) != 0:
